@@ -108,6 +108,8 @@ LevelsFollow(h) == \A i \in Idx(h) :
 BoundEvents == {"method_exception_object", "method_exception_document", "method_exception_string"}
 BoundLevelsSee(h, k) == (k.done /\ k.bound) =>
                            \A e \in BoundEvents : Has(h, "app", e) => (Has(h, "svc", e) /\ Has(h, "meth", e))
+\* a listener that a SIBLING service class (another subclass of the same base) registered never sees a call of this service
+NoForeign(h) == \A i \in Idx(h) : h[i][1] # "foreign"
 \* every ctx event seen by the service from method_call on was also seen (earlier) by the app
 SvcSubApp(h) == \A i \in Idx(h) : h[i][1] \in {"meth", "svc", "svc2"} =>
                     \E j \in 1..(i-1) : h[j] = <<"app", h[i][2]>>
